@@ -479,6 +479,30 @@ def oracle(ctx):
     finally:
         _sh.rmtree(d, ignore_errors=True)
     ctx.cov['use_histogram'] = hist
+    # a filler that itself uses a macro (handing it fillers for slots that macro does not have) runs in a scope of its own: what it
+    # registers must not reach the uses that follow the slot in the outer macro's body
+    from chameleon import PageTemplate
+    for sname in ('x', 'extras'):
+        for inner_has in (False, True):
+            lib = PageTemplate(
+                '<p metal:define-macro="inner">I%s</p>' % ('[<s metal:define-slot="%s">idef</s>]' % sname if inner_has else '') +
+                '<div metal:define-macro="footer">footer[<i metal:define-slot="%s">no extras</i>]</div>' % sname +
+                '<div metal:define-macro="outer">O(<b metal:define-slot="main">M</b>)<div metal:use-macro="macros[\'footer\']"/>'
+                '<div metal:use-macro="macros[\'footer\']"><em metal:fill-slot="%s">own</em></div></div>' % sname)
+            caller = PageTemplate('<x metal:use-macro="lib.macros[\'outer\']"><u metal:fill-slot="main">'
+                                  '<q metal:use-macro="lib.macros[\'inner\']"><u metal:fill-slot="%s">STALE</u></q></u></x>' % sname)
+            inner_out = '<p>I%s</p>' % ('[<u>STALE</u>]' if inner_has else '')
+            want = ('<div>O(<u>%s</u>)<div>footer[<i>no extras</i>]</div><div>footer[<em>own</em>]</div></div>' % inner_out)
+            ctx.count('evaluations')
+            nt += 1
+            try:
+                got = caller(lib=lib)
+            except Exception as e:
+                got = {'exc': type(e).__name__, 'msg': str(e).split('\n')[0][:100]}
+            if got != want:
+                ctx.violation('a filler that uses a macro itself: the fillers it hands over concern that use only — a later use in the outer macro '
+                              'that defines a slot of the same name shows its default content (or its own filler)',
+                              {'lib': lib.body, 'caller': caller.body}, expected=want, actual=got)
     ctx.counters['nontrivial'] = nt
     ctx.sample({'metal': meta[0][0], 'inlined': meta[0][1]})
     # known findings
